@@ -24,7 +24,7 @@ RULE = (
 )
 ASSUMPTIONS = [
     "tolerance (linear domain): |a-b| <= 1e-7 max(|a|,|b|) + 1e-10 S for float64 input, 1e-4 / 1e-6 for float32 input (S = largest coefficient)",
-    "the DFT size is the one observed in the computer's get_truncated_response calls; if none is observed the documented rule (next power of two when padded, else the frame length) is used",
+    "the DFT size is the one observed in the computer's get_truncated_response calls and must equal the documented rule (frame length, padded to the nearest power of two >= it when pad_to_nearest_power_of_two); if none is observed the documented rule is used",
     "window samples come from a fresh WindowFunction of the configured kind (tied to closed forms by C20)",
     "the absolute tolerance term is never below 1e-12 x (sum over bins of |DFT|^p): coefficients of a filter whose response is < 1e-12 on the whole grid are the bank's own rounding noise; nor below 1e-16 x (sum of |frame samples|)^p, the rounding level of the DFT of the frame itself (matters for windows that are ~1e-17 at width 2)",
 ]
@@ -77,6 +77,13 @@ class StftMonitor:
         if len(widths) == 1:
             D = widths[0]
             self.rec.count("dft_size_observed")
+            if D != expected_dft_size(fl, pad) and not getattr(comp, "_vf_dft_reported", False):
+                try:
+                    comp._vf_dft_reported = True
+                except Exception:
+                    pass
+                self.v("the computer transforms %d-sample frames with a %d-point DFT; documented: %s" % (fl, D, "the frame length padded to the nearest power of two (%d)" % expected_dft_size(fl, True)
+                       if pad else "the frame length itself"), check="dft_size", fl=fl, D=D, pad=pad)
         else:
             D = expected_dft_size(fl, pad)
             self.rec.count("dft_size_from_documented_rule")
